@@ -453,10 +453,11 @@ static ssize_t do_send(int fd, const void *buf, size_t n, int call) {
     if (!f->eagain_payloads.empty()) {
       uint64_t h = hash_bytes(0xEA6A, buf, n);
       auto it = std::find_if(f->eagain_payloads.begin(), f->eagain_payloads.end(), [h](const std::pair<uint64_t, uint32_t> &p) { return p.first == h; });
-      if (it != f->eagain_payloads.end()) { W.next_tx_lseq = it->second; f->eagain_payloads.erase(it); W.next_tx_deferred = true; W.bump("udp_datagram_sent_after_eagain"); }
+      if (it != f->eagain_payloads.end()) { W.next_tx_lseq = it->second; f->eagain_payloads.erase(it); W.next_tx_deferred = true; f->flush_api_seq = W.api_seq; W.bump("udp_datagram_sent_after_eagain"); }
     }
+    if (!W.next_tx_deferred && f->flush_api_seq == W.api_seq) { W.next_tx_order_unknown = true; W.bump("udp_datagram_maybe_queued_behind_deferred"); }
     W.client_send_dgram(*f, std::string((const char *)buf, n));
-    W.next_tx_deferred = false;
+    W.next_tx_deferred = false; W.next_tx_order_unknown = false;
     return (ssize_t)n;
   }
   // TCP
